@@ -463,8 +463,9 @@ def run_check(prop, tier, verif_seed):
     redo = min(redo, total['done'])
     d1 = run_batch(prop, tier, verif_seed, redo, b['max_wall'] / 4 + 30, want_digests=True, chunk=1)
     d2 = run_batch(prop, tier, verif_seed, redo, b['max_wall'] / 4 + 30, want_digests=True, chunk=max(1, redo // 3))
-    det_same = sum(1 for k in d1['digests'] if d2['digests'].get(k) == d1['digests'][k])
-    det_total = len(d1['digests'])
+    both = [k for k in d1['digests'] if k in d2['digests']]      # (a re-execution cut short by its wall cap compares fewer runs)
+    det_same = sum(1 for k in both if d2['digests'][k] == d1['digests'][k])
+    det_total = len(both)
 
     known = load_known()
     lines = []
